@@ -124,6 +124,18 @@ def main():
     confirmed = res.get("demo_fails_with_patch") and res.get("demo_passes_without_patch") and (skip_suite or res.get("suite_passes_with_patch"))
     res["confirmed"] = bool(confirmed)
     dst = os.path.join(VERIF, "seeded", name)
+    if skip_suite and os.path.exists(os.path.join(dst, "meta.json")):
+        # the suite was run for this seed in an earlier invocation: keep that record, and the history of check results
+        old = json.load(open(os.path.join(dst, "meta.json")))
+        if "suite_passes_with_patch" in old:
+            res["suite_passes_with_patch"] = old["suite_passes_with_patch"]
+            res["ran"].insert(0, "existing suite with patch: passed in an earlier invocation of tools/seedtest.py (repo head %s)" % old.get("repo_head"))
+        res["earlier_results"] = (old.get("earlier_results") or []) + [{"repo_head": old.get("repo_head"), "detected_by": old.get("detected_by"),
+                                  "checks": {c: {"detected": r.get("detected"), "violation_lines": r.get("violation_lines")} for c, r in (old.get("checks") or {}).items()}}]
+    elif os.path.exists(os.path.join(dst, "meta.json")):
+        old = json.load(open(os.path.join(dst, "meta.json")))
+        res["earlier_results"] = (old.get("earlier_results") or []) + [{"repo_head": old.get("repo_head"), "detected_by": old.get("detected_by"),
+                                  "checks": {c: {"detected": r.get("detected"), "violation_lines": r.get("violation_lines")} for c, r in (old.get("checks") or {}).items()}}]
     if confirmed:
         os.makedirs(dst, exist_ok=True)
         shutil.copyfile(patch, os.path.join(dst, "patch.diff"))
